@@ -99,7 +99,8 @@ def to_dataset(pts, layout, seed):
 
 def gen_spec(rng, big=False):
     cls = rng.choice(CLASSES) if not big else rng.choice(["random", "gaps", "threshold"])
-    r = rng.choice([0.5, 5.0, 5.0, 50.0, 300.0])
+    r = rng.choice([0.5, 5.0, 5.0, 50.0, 300.0, 1500.0, 2500.0] if rng.random() < 0.25
+                   else [0.5, 5.0, 5.0, 50.0, 300.0])
     mi_s = rng.choice([1, 60, 300, 3600])
     tick = M.SEC
     g = {"cls": cls, "seed": rng.randrange(2 ** 31), "r_km": r, "mi_ns": mi_s * M.SEC, "tick_ns": tick,
@@ -194,7 +195,7 @@ def extract_pairs(res, pname, sname):
     return [(int(idp[a]), int(ids[b])) for a, b in zip(pairs[0], pairs[1])]
 
 
-def check_call(rec, coll, case, p, s, call, tag="collocate"):
+def check_call(rec, coll, case, p, s, call, tag="collocate", datasets=None):
     """One collocate() call on `coll` compared with the oracle. call: options dict."""
     from vt.monitors import collocmon
     g = case["gen"]
@@ -204,8 +205,11 @@ def check_call(rec, coll, case, p, s, call, tag="collocate"):
     start_ns, end_ns = call.get("start_ns"), call.get("end_ns")
     mi_ns = None if call.get("spatial_only") else g["mi_ns"]
     must, may, info = M.brute(P, S, mi_ns, g["r_km"], start_ns, end_ns)
-    dsP = to_dataset(P, L1, g["seed"] + 1)
-    dsS = to_dataset(S, L2, g["seed"] + 2)
+    if datasets is not None:
+        dsP, dsS = datasets  # the caller keeps (and updates in place) its own dataset objects
+    else:
+        dsP = to_dataset(P, L1, g["seed"] + 1)
+        dsS = to_dataset(S, L2, g["seed"] + 2)
     kw = dict(max_interval=None if call.get("spatial_only") else call["mi"], max_distance=call["r"], bin_factor=call.get("bin_factor", 1),
               magnitude_factor=call.get("magnitude_factor", 10), leaf_size=call.get("leaf_size", 40))
     if start_ns is not None:
@@ -333,12 +337,55 @@ def run_history(rec, rng, case):
     from typhon.collocations import Collocator
     p, s = M.gen_case(case["gen"])
     coll = Collocator()
-    steps = rng.choice([["single-then-stack"], ["single-then-stack", "same"],
+    steps = case.get("history") or rng.choice([["inplace-update"], ["grid-reuse-then-magnitude"],
+                        ["single-then-stack"], ["single-then-stack", "same"],
                         ["same", "same"], ["same", "swap", "same"], ["same", "perturb", "perturb2"],
                         ["same", "bigger", "same"], ["swap", "perturb", "swap", "same"],
                         ["same", "perturb-secondary", "same"]])
     p0, s0 = p, s
     for step in steps:
+        if step == "inplace-update":
+            # the caller owns two datasets and moves the positions of one of them *in place* between
+            # calls (same array objects); spatial-only and full searches
+            flat = {"kind": "flat", "dim": "obs", "labels": "int"}
+            c1 = dict(case, layout1=flat, layout2=flat, window=None)
+            clean = lambda d: {k: v[~(np.isnan(d["lat"]) | np.isnan(d["lon"]))] for k, v in d.items()}
+            pp, ss = clean(p0), clean(s0)
+            if pp["time"].size == 0 or ss["time"].size == 0:
+                continue
+            dsP, dsS = to_dataset(pp, flat, 1), to_dataset(ss, flat, 2)
+            spatial = rng.random() < 0.6
+            for k in range(3):
+                call = make_call(rng, c1, pp, ss, spatial_only=spatial, inplace=k)
+                call["step"] = step
+                rec.count("history.calls")
+                rec.count("history.inplace_calls")
+                check_call(rec, coll, dict(c1, history=steps), pp, ss, call, tag="history",
+                           datasets=(dsP, dsS))
+                moved = M.perturb(pp if k % 2 == 0 else ss, rng.choice([9.0, 3000.0, 40000.0]),
+                                  case["gen"]["seed"] + 30 + k)
+                target, ds = (pp, dsP) if k % 2 == 0 else (ss, dsS)
+                target["lat"][...] = moved["lat"]
+                target["lon"][...] = moved["lon"]
+                ds["lat"].values[...] = moved["lat"]
+                ds["lon"].values[...] = moved["lon"]
+            continue
+        if step == "grid-reuse-then-magnitude":
+            # consecutive pairs with an identical fixed grid on one side (legitimate index reuse),
+            # directly followed by a pair whose sizes differ by more than the magnitude factor
+            flat = {"kind": "flat", "dim": "obs", "labels": "int"}
+            c1 = dict(case, layout1=flat, layout2=flat, window=None)
+            gg = dict(case["gen"], n1=rng.choice([60, 120]), n2=rng.choice([20, 40]), cls="random",
+                      split=None, grid_w=None)
+            grid, sa = M.gen_case(gg)
+            _, sb = M.gen_case(dict(gg, seed=gg["seed"] + 1))
+            tiny, big = M.gen_case(dict(gg, seed=gg["seed"] + 2, n1=3, n2=rng.choice([50, 100])))
+            for k, (a, b) in enumerate(((grid, sa), (grid, sb), (tiny, big), (grid, sa))):
+                call = make_call(rng, c1, a, b, magnitude_factor=10, gridreuse=k)
+                call["step"] = step
+                rec.count("history.calls")
+                check_call(rec, coll, dict(c1, history=steps), a, b, call, tag="history")
+            continue
         if step == "single-then-stack":
             # call 1: both sets are one point (index built from a single point); call 2: a time series
             # of several points that all sit exactly at that position (a station)
@@ -439,7 +486,7 @@ def replay(case, rec):
     coll = Collocator()
     for call in case.get("calls", []):
         pp, ss = p, s
-        if call.get("stack"):
+        if call.get("stack") or "inplace" in call or "gridreuse" in call:
             run_history(rec, rng_for(0, "replay"), dict(case, calls=[]))
             return
         if call.get("perturb") in ("perturb", "perturb2"):
